@@ -95,7 +95,7 @@ def run(ctx):
                 if not (close(got, want) and close(got, tr)):
                     v(f"capa_penalty({n}, {k}, {scale}) = {got}, documented formula {want}, translated kernel {tr}",
                       {"function": "capa_penalty", "n": n, "n_params": k, "scale": scale}, {"what": "formula", "f": "capa_penalty"})
-            for p in [1, 2, 3, 4, 6]:
+            for p in [1, 2, 3, 4, 6, 30, 64]:
                 for npv in [1, 2, 3]:
                     inp = {"n": n, "p": p, "n_params_per_variable": npv, "scale": scale}
                     da, db = M.dense_mvcapa_penalty(n, p, npv, scale)
@@ -118,6 +118,8 @@ def run(ctx):
                         dcum, scum, icum = da + np.cumsum(db), sa + np.cumsum(sb), ia + np.cumsum(ib)
                         want_c = np.minimum(dcum, np.minimum(scum, icum))
                         got_c = ca + np.cumsum(cb)
+                        if scale > 0:
+                            ctx.count("combined_min_attained_by", "intermediate" if np.any((icum < dcum) & (icum < scum)) else "dense/sparse only")
                         if not close(got_c, want_c, rel=1e-10):
                             v(f"combined_mvcapa_penalty{(n, p, npv, scale)}: cumulative penalties {got_c.tolist()} are not the pointwise minimum "
                               f"{want_c.tolist()} of the dense {dcum.tolist()}, sparse and intermediate ones", dict(inp, function="combined"),
